@@ -59,6 +59,8 @@ enum State {
     BlockedLock,
     BlockedCq { wait: Wait, deadline: Option<u64> },
     Finished,
+    /// Blocked for ever on an a10 lock nobody can release: parked for good.
+    Dead,
 }
 
 #[derive(Copy, Clone, Debug, PartialEq)]
@@ -102,6 +104,8 @@ struct Sched {
     p_preempt: u32,
     done: Arc<Parker>,
     exhausted: bool,
+    /// Consecutive scheduling points that were all "blocked on a lock".
+    blocked_streak: u32,
     /// Every thread is idle and nothing can make progress any more.
     stalled: bool,
 }
@@ -125,7 +129,7 @@ fn can_run(s: &Sched, i: usize) -> bool {
                         || k.rings[wait.ring].cq_ready() >= wait.want
                 })
         }
-        State::Finished => false,
+        State::Finished | State::Dead => false,
     }
 }
 
@@ -246,8 +250,43 @@ pub fn yield_now(site: a10::verif::Site, _addr: usize) {
                 stats::inc(C::probe_lock_contended);
             }
             s.threads[me].state = State::BlockedLock;
+            s.blocked_streak += 1;
+        } else {
+            s.blocked_streak = 0;
         }
         let next = pick(s, me, blocked);
+        if blocked && (next.is_none() || s.blocked_streak > 20_000) {
+            // Nobody who could release the lock can run (or only threads that
+            // are blocked on locks themselves have run for a long time): a10
+            // would sleep on the futex for ever. Report, park this thread for
+            // good (unwinding through a10 frames could block again) and hand
+            // the baton on.
+            for v in alloc::take_violations() {
+                report::violation(v.class, v.detail);
+            }
+            let freed = alloc::find(_addr).is_some_and(|(_, b)| b.state != alloc::BlockState::Live);
+            report::violation(
+                if freed { "mem.use-after-free" } else { "wake.deadlock" },
+                if freed {
+                    "a10 takes a lock that lies in memory it has already freed".to_string()
+                } else {
+                    format!("thread {me} blocks forever on an a10 lock that no runnable thread can release")
+                },
+            );
+            s.threads[me].state = State::Dead;
+            progress();
+            let next = pick(s, me, true);
+            let wake = match next {
+                Some(n) => s.threads[n].parker.clone(),
+                None => s.done.clone(),
+            };
+            let mine = s.threads[me].parker.clone();
+            drop(g);
+            wake.unpark();
+            loop {
+                mine.park();
+            }
+        }
         if blocked {
             s.threads[me].state = State::Runnable;
         }
@@ -261,7 +300,7 @@ pub fn yield_now(site: a10::verif::Site, _addr: usize) {
             switch_to(me, n);
         }
         None => {
-            // Everybody else is finished or blocked on a lock we hold: keep going.
+            // Everybody else is finished: keep going.
         }
     }
 }
@@ -324,8 +363,14 @@ pub fn wait(w: &Wait) -> c_int {
             }
         }
     }
+    let wait_start = kernel::stamp();
+    let log = |expired: bool| {
+        let end = kernel::stamp();
+        kernel::with(|k| k.wait_log.push((me, wait_start, end, expired)));
+    };
     loop {
         if let Some(r) = kernel::with(|k| k.wait_step(w, true)) {
+            log(false);
             return r;
         }
         // Block: somebody else has to make progress.
@@ -357,9 +402,12 @@ pub fn wait(w: &Wait) -> c_int {
         match reason {
             WakeReason::None => continue,
             WakeReason::Timeout => {
+                // A zero timeout (a10 was awoken) ending is not an expiry.
+                log(w.timeout_ns.is_some_and(|ns| ns > 0));
                 return kernel::with(|k| k.wait_timeout(w, deadline.unwrap_or(0)));
             }
             WakeReason::Stuck => {
+                log(true);
                 return kernel::with(|k| {
                     k.stuck_waits += 1;
                     ev!("k enter ring#{} would block forever", w.ring);
@@ -400,6 +448,7 @@ pub fn run_threads(bodies: Vec<Box<dyn FnOnce() + Send>>, p_preempt: u32, budget
             p_preempt,
             done: done.clone(),
             exhausted: false,
+            blocked_streak: 0,
             stalled: false,
         });
     }
@@ -465,6 +514,10 @@ pub fn run_threads(bodies: Vec<Box<dyn FnOnce() + Send>>, p_preempt: u32, budget
             "wake.deadlock",
             format!("threads {unfinished:?} are blocked forever on a10 locks"),
         );
+        for h in handles {
+            // Leaked on purpose: they stay parked inside a10 frames.
+            std::mem::forget(h);
+        }
     }
     let steps = sched().as_ref().map_or(0, |s| s.steps);
     stats::add(C::total_steps, steps);
